@@ -685,17 +685,22 @@ def run_b17(chk, repo):
     if not {'advan', 'trans'} <= set(f.all_params):
         raise AnalysisError('update_needed_pk_parameters: parameters advan/trans not found')
 
-    def consts(node, env, out):
+    def consts(node, env, out, depth=0):
         if isinstance(node, ast.Dict) and node.keys and all(isinstance(k, ast.Constant) for k in node.keys) \
                 and env['advan'] in [k.value for k in node.keys]:
             for k, v in zip(node.keys, node.values):
                 if k.value == env['advan']:
-                    consts(v, env, out)
+                    consts(v, env, out, depth)
             return
         if isinstance(node, ast.Constant) and isinstance(node.value, str):
             out.add(node.value)
+        if isinstance(node, ast.Name) and isinstance(um.globals_.get(node.id), (ast.Dict, ast.Tuple, ast.List)) \
+                and depth < 3:
+            # a module-level table (also one imported from another module of the package)
+            consts(um.globals_[node.id], env, out, depth + 1)
+            return
         for c in ast.iter_child_nodes(node):
-            consts(c, env, out)
+            consts(c, env, out, depth)
 
     def walk(stmts, env, out):
         for s_ in stmts:
